@@ -45,7 +45,15 @@ type Contract struct {
 	Lets     []LetDef // ghost definitions usable in clauses: let name = expr (evaluated at entry)
 	Uses     []string
 	Decreases *Clause // function-level measure (recursion)
+	Emits     []EmitSpec // ghost events this function appends (assumed at call sites)
 	WF       []string // heap specs for which heap well-formedness axioms are emitted
+}
+
+// EmitSpec: "emits <seq> <expr>" — a call of the function appends <expr> to the ghost sequence <seq>.
+type EmitSpec struct {
+	Seq  string
+	Expr SExpr
+	Text string
 }
 
 type LetDef struct {
@@ -285,6 +293,19 @@ func (cs *ContractSet) loadFile(path string) error {
 					cur.Modifies = append(cur.Modifies, m)
 				}
 			}
+		case "emits":
+			if cur == nil {
+				return fmt.Errorf("%s:%d: emits outside func", path, r.line)
+			}
+			f := strings.SplitN(r.text, " ", 2)
+			if len(f) != 2 {
+				return fmt.Errorf("%s:%d: emits <sequence> <expr>", path, r.line)
+			}
+			e, err := ParseSpec(strings.TrimSpace(f[1]))
+			if err != nil {
+				return fmt.Errorf("%s:%d: %v", path, r.line, err)
+			}
+			cur.Emits = append(cur.Emits, EmitSpec{Seq: f[0], Expr: e, Text: strings.TrimSpace(f[1])})
 		case "wf":
 			if cur == nil {
 				return fmt.Errorf("%s:%d: wf outside func", path, r.line)
